@@ -85,3 +85,11 @@ claim(
     "source-level extraction of small matrices and per-axis scale factors (sympy), group connection templates",
     "DESIGN.md section 2 C09",
 )
+
+claim(
+    "C11",
+    "Static: decides the conservation structure of the transfers for all inputs: the panel force reaches the nodes with total weight one; each nodal moment is the chordwise sum of cross(a - s[same node slice], same force share) with the aerodynamic centre at the quarter-chord mid-span stencil; the default mesh-point weights sum to one per panel with the resultant at the quarter chord; the transformation matrix is zero at zero rotation with the skew matrix as first-order part and the deformed mesh is affine in the displacements; ComputeNodes and LoadTransfer use the same structural-node location under every option valuation; the transfer components are evaluated after their producers.",
+    TB,
+    "source-level expression extraction (uninterpreted cross / axis-sum, stencil coefficients), LIN domain, cross-component agreement per option valuation, group dataflow order",
+    "DESIGN.md section 2 C11",
+)
